@@ -4,7 +4,7 @@ From Coq Require Import ZArith List Ascii String Sorted.
 From Verif Require Import Base.Prelude Base.Str Base.Float Schema.Regex Schema.Units Schema.FloatUnits Generated.Tables
   Proofs.UnitsArith Proofs.UnitsSweep Proofs.UnitsBuiltin Proofs.UnitsFloat
   Proofs.UnitsStringRe Proofs.UnitsStringTok Proofs.UnitsStringSound Proofs.UnitsStringRound
-  Proofs.UnitsStringRT Proofs.UnitsStringWitness Proofs.UnitsStringFloat Proofs.UnitsStringSpec.
+  Proofs.UnitsStringRT Proofs.UnitsStringWitness Proofs.UnitsStringFloat Proofs.UnitsStringSpec Proofs.TrimSpaceU.
 Import ListNotations.
 Open Scope Z_scope.
 Open Scope list_scope.
@@ -166,7 +166,10 @@ Qed.
        parse_units_int u (format_short_int u n) = Some n /\ parse_units_int u (format_long_int u n) = Some n.
    Proved: the same under the boolean  names_unambiguous u  (Proofs/UnitsStringRound.v):
      - every name starts with a byte that is neither a digit nor a regexp space, is not "." and
-       does not start with "." followed by a digit, and does not end in a byte strings.TrimSpace cuts;
+       does not start with "." followed by a digit, and does not END WITH A WHITE-SPACE CHARACTER of strings.TrimSpace
+       (unicode.IsSpace on the UTF-8 text: the six ASCII ones, U+0085, U+00A0, U+1680, U+2000..U+200A, U+2028, U+2029,
+       U+202F, U+205F, U+3000 - name_last_ok; until work package s8u the model trimmed ASCII only and this clause read
+       "does not end in an ASCII white-space byte", which the SDK refutes on a name ending in U+00A0);
      - no name is a proper prefix of another name (of any unit) that continues with a digit or a space
        (plain prefixes such as "m" / "ms" / "mm" are fine);
      - two DIFFERENT units (base included) do not share a name.
@@ -226,6 +229,50 @@ Proof.
   pose proof w_shared_fails. pose proof w_prefix_fails. pose proof w_digit_fails.
   pose proof w_trail_fails. pose proof w_dot_fails. pose proof w_point_fails. tauto.
 Qed.
+
+(* the Unicode twin of w_trail: a well-formed definition whose short names end in NO-BREAK SPACE (U+00A0, C2 A0).  The
+   regular expression's \s never matches that character, strings.TrimSpace cuts it: FormatShortInt 5 = "5x<NBSP>" is
+   refused by ParseInt (the long form, "5exes", reads back).  The SDK answers identically (family units, `D73 witnesses`).
+   A name that starts with or contains the character is matched literally and round-trips (w_inner_nbsp). *)
+Theorem C16_roundtrip_unicode_trail_refuted :
+  exists u n, wf_units u = true /\ 0 <= n <= max_i64 /\ names_unambiguous u = false
+    /\ parse_units_int u (format_short_int u n) = None /\ parse_units_int u (format_long_int u n) = Some n.
+Proof. exact roundtrip_unicode_trail_refuted. Qed.
+Print Assumptions C16_roundtrip_unicode_trail_refuted.
+
+Example C16_unicode_names :
+  (wf_units w_trail_nbsp = true /\ names_unambiguous w_trail_nbsp = false
+   /\ parse_units_int w_trail_nbsp (format_short_int w_trail_nbsp 5) = None)
+  /\ (wf_units w_inner_nbsp = true /\ names_unambiguous w_inner_nbsp = true
+      /\ parse_units_int w_inner_nbsp (format_short_int w_inner_nbsp 61) = Some 61)
+  /\ forallb (fun u => forallb (fun x => name_last_ok (chars x)) (all_names u)) builtin_units = true.
+Proof.
+  pose proof w_trail_nbsp_fails. pose proof w_inner_nbsp_ok. split; [tauto|]. split; [tauto|]. vm_compute. reflexivity.
+Qed.
+
+(* TrimSpace in the model is Go's: Unicode white space at both ends of the UTF-8 text, nothing else.  The parser's
+   trimmed input is blank exactly when the text is a sequence of white-space characters (then it is refused) ... *)
+Theorem C16_trim_space_blank_iff : forall s,
+  chars (trim_space s) = [] <-> exists rs, Forall (fun r => is_uspace_enc r = true) rs /\ chars s = List.concat rs.
+Proof. exact trim_space_blank_iff. Qed.
+Print Assumptions C16_trim_space_blank_iff.
+
+(* ... and a text that starts with a digit and does not end with a white-space character is left as it is *)
+Theorem C16_trim_space_id : forall s c t, chars s = c :: t -> is_digit c = true ->
+  head_sp usp2r usp3r (rev (chars s)) = false -> chars (trim_space s) = chars s.
+Proof. exact trim_space_id. Qed.
+Print Assumptions C16_trim_space_id.
+
+Example C16_trim_space_examples :
+  trim_space (bytes_str [194; 160; 53; 115; 227; 128; 128; 11]%Z) = "5s"%string
+  /\ trim_space (bytes_str [53; 194; 160; 115]%Z) = bytes_str [53; 194; 160; 115]%Z
+  /\ trim_space (bytes_str [160; 53; 133]%Z) = bytes_str [160; 53; 133]%Z
+  /\ parse_units_int unit_duration_seconds (bytes_str [194; 133; 53; 115]%Z) = Some 5
+  /\ parse_units_int unit_duration_seconds (bytes_str [227; 128; 128; 53; 109; 227; 128; 128]%Z) = Some 300
+  /\ parse_units_int unit_duration_seconds (bytes_str [53; 194; 160; 115]%Z) = None
+  /\ parse_units_int unit_duration_seconds (bytes_str [53; 11; 115]%Z) = None
+  /\ parse_units_int unit_duration_seconds (bytes_str [11; 53; 115; 11]%Z) = Some 5.
+Proof. vm_compute. repeat split; reflexivity. Qed.
 
 (* (7) The float entry point at string level, ARBITRARY definitions.  A successful ParseFloat reads
    a tokenisation of its input (same template, same matcher; only the base count may carry a
